@@ -93,6 +93,8 @@ class Shard:
         self.done = False
         self.proc = None
         self.hang_s = part.get('hang_s', 20)
+        self.inproc = bool(part.get('inproc'))      # schedule search without a process per execution (engines/sched/explore.hpp)
+        self.forkfrom = None
 
     def start(self):
         a = [self.exe] + self.args + ['shard=%d/%d' % (self.k, self.n), 'cur=' + self.cur]
@@ -100,6 +102,10 @@ class Shard:
             a.append('deadline=%d' % int(self.deadline))
         if self.frm is not None:
             a.append('from=%d' % self.frm)
+        if self.inproc:
+            a.append('inproc=1')
+            if self.forkfrom is not None:
+                a.append('forkfrom=%d' % self.forkfrom)
         self.out = open(os.path.join(self.tmp, 'out.%s.%d.%d' % (self.part['name'], self.k, self.restarts)), 'w+')
         self.err = open(os.path.join(self.tmp, 'err.%s.%d.%d' % (self.part['name'], self.k, self.restarts)), 'w+')
         self.proc = subprocess.Popen(a, stdout=self.out, stderr=self.err, env=self.env, cwd=self.tmp)
@@ -146,8 +152,16 @@ class Shard:
         if got_stat and rc in (0, 1) and not hung:
             self.done = True
             return True
-        # died in the middle of a case: attribute, then resume after it
         idn, tags, rep = read_cur(self.cur)
+        if self.inproc and self.forkfrom is None:
+            # an in-process execution did not return: nothing of this run counts; run the shard again, the executions
+            # before that one in process, that one and all later ones in forked children where their ending is judged
+            self.records = []
+            self.forkfrom = 0 if (idn is None or rc == 5) else idn
+            self.restarts += 1
+            self.start()
+            return False
+        # died in the middle of a case: attribute, then resume after it
         mode = 'hang:>%ds' % self.hang_s if hung else crash_mode(err, rc)
         self.records.append({'t': 'viol', '_part': self.part['name'], 'clause': self.part.get('crash_clause', 'memory-safe-and-total'),
                              'mode': mode, 'tags': tags, 'case': rep, 'observed': mode, 'expected': 'returns or throws a library exception',
@@ -155,7 +169,7 @@ class Shard:
         self.records.append({'t': 'stat', '_part': self.part['name'], 'evaluations': 0, 'nontrivial': 0, 'violations': 1, 'done': True,
                              'outcomes': {'crash': 1}, 'counters': {}, '_partial': True})
         self.restarts += 1
-        if idn is None or self.restarts > self.part.get('max_restarts', 400):
+        if idn is None or self.inproc or self.restarts > self.part.get('max_restarts', 400):
             self.records.append({'t': 'stat', '_part': self.part['name'], 'evaluations': 0, 'nontrivial': 0, 'violations': 0, 'done': False, 'outcomes': {}, 'counters': {}})
             self.done = True
             return True
